@@ -233,12 +233,38 @@ fn real_mappings(f: &ResponseOutputFormat) -> Vec<CsvMapping> {
 
 // ---------------------------------------------------------------- verdicts by real parsers
 
-/// header + row read back by the csv crate: exactly two records with one field per column
-fn cols_ok(n: usize, header: &str, row: &str) -> bool {
+/// header + row read back by the csv crate: exactly two records; the header names are the
+/// configured column names, each once; field i of the row is the value of the mapping configured
+/// under header name i (string by content, other values by JSON text, failed mapping empty)
+fn cols_ok(real: &ResponseOutputFormat, resp: &Value, header: &str, row: &str) -> bool {
+    let mapping: Vec<(String, CsvMapping)> = match real {
+        ResponseOutputFormat::Csv { mapping, .. } => mapping.iter().map(|(k, v)| (k.clone(), v.clone())).collect(),
+        _ => return false,
+    };
     let text = format!("{}{}\n", header, row);
     let mut rd = csv::ReaderBuilder::new().has_headers(false).flexible(true).from_reader(text.as_bytes());
     let recs: Vec<csv::ByteRecord> = rd.byte_records().filter_map(|r| r.ok()).collect();
-    recs.len() == 2 && recs[0].len() == n && recs[1].len() == n
+    if recs.len() != 2 || recs[0].len() != mapping.len() || recs[1].len() != mapping.len() {
+        return false;
+    }
+    let names: Vec<&[u8]> = recs[0].iter().collect();
+    for (i, n) in names.iter().enumerate() {
+        if names[i + 1..].contains(n) {
+            return false;
+        }
+        let want: Vec<u8> = match mapping.iter().find(|(k, _)| k.as_bytes() == *n) {
+            None => return false,
+            Some((_, m)) => match m.apply_mapping(resp) {
+                Ok(Value::String(s)) => s.into_bytes(),
+                Ok(v) => v.to_string().into_bytes(),
+                Err(_) => vec![],
+            },
+        };
+        if recs[1].get(i) != Some(&want[..]) {
+            return false;
+        }
+    }
+    true
 }
 /// SinkRun.keep_ok
 fn keep_ok(r: &Value, r2: &Value) -> bool {
@@ -600,7 +626,7 @@ fn fmt_case(st: &mut Stream, f: &FmtDoc, resp: &Value, family: &str) {
                 _ => "-".into(),
             };
             let cols = match f {
-                FmtDoc::Csv(..) if n > 0 => show_bool(cols_ok(n, hdr.as_deref().unwrap_or(""), row)).to_string(),
+                FmtDoc::Csv(..) if n > 0 => show_bool(cols_ok(&real, resp, hdr.as_deref().unwrap_or(""), row)).to_string(),
                 _ => "-".into(),
             };
             if cols == "F" {
